@@ -435,6 +435,7 @@ def resolveConflicts(actions, state=None):
 
         # Check for conflicts
         conflicts = {}
+        overridden = []
         for discriminator, ainfos in unique.items():
             # We use (includepath, i) as a sort key because we need to
             # sort the actions by the paths so that the shortest path with a
@@ -464,6 +465,8 @@ def resolveConflicts(actions, state=None):
                 ):
                     L = conflicts.setdefault(discriminator, [baseinfo])
                     L.append(action['info'])
+                else:
+                    overridden.append(action)
 
             else:
                 output.append(ainfo)
@@ -478,9 +481,16 @@ def resolveConflicts(actions, state=None):
                 ):
                     L = conflicts.setdefault(discriminator, [baseinfo])
                     L.append(action['info'])
+                else:
+                    overridden.append(action)
 
         if conflicts:
             raise ConfigurationConflictError(conflicts)
+
+        # overridden actions will never run; forget them so that a later
+        # re-entrant resolution does not mistake them for late additions
+        for action in overridden:
+            state.remaining_actions.remove(action)
 
         # sort resolved actions by "i" and yield them one by one
         for i, action in sorted(output, key=operator.itemgetter(0)):
